@@ -1,4 +1,5 @@
 import Gtree.Lemmas.SourceRefines
+import Gtree.Lemmas.HeapVerify
 import Gtree.Model.Api
 import Gtree.Lemmas.MkdirVerify
 import Gtree.Lemmas.MkInterleave
@@ -163,4 +164,19 @@ theorem C08_verdict_is_the_source (strict : Bool) (dir : Bytes) (extra missing :
     Src.defaultVerifierSimple.handleErr ⟨strict, dir⟩ extra missing =
       if (strict && !extra.isEmpty) || !missing.isEmpty then some (Src.Err.verifyError strict extra missing) else none :=
   verifier_handleErr_src strict dir extra missing
+end Gtree
+
+namespace Gtree
+/-- Tie to the source, pointer code included (heap mode of /verif/translate, regenerated on every run): WHICH PATHS VERIFY
+    REQUIRES.  `fillDirsMarkdown` of simple_tree_verifier.go — the recursion that fills the set `dirsMarkdown` before the
+    directory is looked at — translated over an explicit heap (the `map[string]struct{}` as the list of its elements in
+    insertion order).  For every heap that holds a tree, every target and every fuel above the tree's size it inserts,
+    in pre-order, exactly the target joined with the path of every node: the model's `want` of `verifyRoot`
+    (`SrcH.wantOf` is that expression), against which `C08_missing_exact` and `C08_extra_exact` are stated.  The
+    directory walk itself (`fs.WalkDir` with its callback) stays hand-modelled; the verdict is `C08_verdict_is_the_source`. -/
+theorem C08_required_paths_are_the_source (h : SrcH.Heap) (dv : SrcH.defaultVerifierSimple) (t : T) (p par : Nat)
+    (lvl fuel : Nat) (dirs : List Bytes) (hr : SrcH.Repr h t p par lvl) (hf : t.size ≤ fuel) :
+    SrcH.defaultVerifierSimple.fillDirsMarkdown fuel h dv p dirs =
+      some (SrcH.insertAll dirs ((SrcH.readNode h t p lvl).map (fun v => filepathJoin [dv.targetDir, v.path])), none) :=
+  SrcH.fill_node h dv t p par lvl fuel dirs hr hf
 end Gtree
